@@ -329,10 +329,25 @@ def make_tables(tr, offsets):
           "ctts": None if tr.get("cts") is None else rle(tr["cts"], tr.get("ctts_split")),
           "stss": None if tr.get("sync") is None else list(tr["sync"])}
     tb["co64" if tr.get("co64") else "stco"] = list(offsets)
+    if tr.get("zero_runs"):
+        # runs with sample_count 0 (legal: they describe no sample) in front of, between and behind the real runs of stts and ctts;
+        # with enough of them a table has as many entries as the track has samples without being "one entry per sample"
+        def sprinkle(runs, val, k):
+            out = []
+            for i, r in enumerate(runs):
+                if (i + k) % 2 == 0:
+                    out.append((0, val))
+                out.append(r)
+            return out + [(0, val)]
+        tb["stts"] = sprinkle(tb["stts"], 777, tr["zero_runs"])
+        if tb["ctts"] is not None:
+            tb["ctts"] = sprinkle(tb["ctts"], 999, tr["zero_runs"] + 1)
+            while len(tb["ctts"]) < n:
+                tb["ctts"].insert(len(tb["ctts"]) // 2, (0, -999))
     return tb
 
 
-def build_movie(tracks, layout="moov_first", movie_ts=1000, extra_top=(), udta=None, mvex=None, base=0, large_mdat=False, moov_extra=(), lead=()):
+def build_movie(tracks, layout="moov_first", movie_ts=1000, extra_top=(), udta=None, mvex=None, base=0, large_mdat=False, moov_extra=(), lead=(), mdat_to_eof=False):
     """returns (Rendered, tracks with 'tables' and 'offsets' filled in, mdat payload offset)"""
     # chunk order: round robin over tracks
     order = []
@@ -357,7 +372,9 @@ def build_movie(tracks, layout="moov_first", movie_ts=1000, extra_top=(), udta=N
             t = tracks[ti]
             offs[ti][c] = pos
             for k in range(starts[ti][c], starts[ti][c] + t["chunks"][c]):
-                b = sample_bytes(t["id"], k + 1, t["sizes"][k])
+                # data_cap: the tables declare the full size, the file carries only the first data_cap bytes of the sample
+                # (declared sizes of 2^31.. cannot be materialised; offset lookups are still defined by the tables)
+                b = sample_bytes(t["id"], k + 1, min(t["sizes"][k], t.get("data_cap", 1 << 62)))
                 payload += b
                 pos += len(b)
         return offs, bytes(payload)
@@ -365,7 +382,8 @@ def build_movie(tracks, layout="moov_first", movie_ts=1000, extra_top=(), udta=N
     def moov_for(offs):
         items = [mvhd(movie_ts, max([t.get("duration", sum(t["deltas"])) for t in tracks] + [0]), next_track_id=len(tracks) + 1)]
         for t, o in zip(tracks, offs):
-            t["tables"] = make_tables(t, o)
+            # tables_override: run-length tables given directly (tracks whose sample count cannot be enumerated)
+            t["tables"] = t["tables_override"] if t.get("tables_override") is not None else make_tables(t, o)
             t.setdefault("duration", sum(t["deltas"]))
             items.append(trak_of(t))
         if mvex is not None:
@@ -384,7 +402,8 @@ def build_movie(tracks, layout="moov_first", movie_ts=1000, extra_top=(), udta=N
         moov_len = len(render([moov0]).data)
         pstart = base + len(head.data) + moov_len + (16 if large_mdat else 8)
         offs, payload = assemble(pstart)
-        nodes = list(lead) + [f] + list(extra_top) + [moov_for(offs), Box("mdat", [Raw(payload)], large=large_mdat)]
+        # mdat_to_eof: the media data box is the last box of the file and declares size 0 ("extends to the end of the file", 14496-12 4.2)
+        nodes = list(lead) + [f] + list(extra_top) + [moov_for(offs), Box("mdat", [Raw(payload)], large=large_mdat, size_override=0 if (mdat_to_eof and not large_mdat) else None)]
     else:
         pstart = base + len(head.data) + (16 if large_mdat else 8)
         offs, payload = assemble(pstart)
@@ -530,7 +549,7 @@ def udta(children):
 
 
 # ---------------------------------------------------------------- fragmented movies
-def build_fragmented(tracks, fragments, movie_ts=1000, trex_dur=0, extra_between=(), large_moof=False, trex_durs=None, moof_transform=None):
+def build_fragmented(tracks, fragments, movie_ts=1000, trex_dur=0, extra_between=(), large_moof=False, trex_durs=None, moof_transform=None, last_mdat_to_eof=False):
     """tracks: [{"id", "kind", "ts"}]; fragments: [[traf, ...], ...] with
          traf = {"track_id", "base": "moof" | "explicit" | "explicit_end", "tfhd_dur": None|int, "tfdt": None|int, "tfdt_v": 0|1,
                  "durations": None|[..], "sizes": [..], "cts": None|[..], "with_offset": bool, "trun": bool}
@@ -608,7 +627,7 @@ def build_fragmented(tracks, fragments, movie_ts=1000, trex_dur=0, extra_between
                 k0 = tf.get("k0", 1)
                 for j, n in enumerate(tf["sizes"]):
                     pl += sample_bytes(tf["track_id"] + 7 * fi, k0 + j, n)
-        media += struct.pack(">I4s", 8 + len(pl), b"mdat") + pl
+        media += struct.pack(">I4s", 0 if (last_mdat_to_eof and fi == len(fragments) - 1) else 8 + len(pl), b"mdat") + pl
         seq += 1
     pieces = runs.pop("_pieces", [])
 
